@@ -153,14 +153,32 @@ func (s *Session) markSendFailed(rpc int, end string) {
 
 // ---- hooks -------------------------------------------------------------------
 
+// The library's hook variables are plain globals: they are set once per process (before any goroutine of the
+// library exists) to dispatchers that route to the current session through an atomic pointer, so that a late
+// goroutine of a finished tunnel never races with the next session being set up.
+var (
+	curSession atomic.Pointer[Session]
+	hooksOnce  sync.Once
+)
+
 func (s *Session) installHooks() {
-	grpctunnel.VerifYieldHook = s.yieldHook
-	grpctunnel.VerifEventHook = s.eventHook
+	hooksOnce.Do(func() {
+		grpctunnel.VerifYieldHook = func(point string, id int64) {
+			if cs := curSession.Load(); cs != nil {
+				cs.yieldHook(point, id)
+			}
+		}
+		grpctunnel.VerifEventHook = func(point string, id, a, b int64) {
+			if cs := curSession.Load(); cs != nil {
+				cs.eventHook(point, id, a, b)
+			}
+		}
+	})
+	curSession.Store(s)
 }
 
 func uninstallHooks() {
-	grpctunnel.VerifYieldHook = nil
-	grpctunnel.VerifEventHook = nil
+	curSession.Store(nil)
 }
 
 func (s *Session) logsHook(point string) bool {
